@@ -50,6 +50,23 @@ Theorem C36_acks_truthful : forall limit maxwin n s c,
 Proof. intros. apply (acks_truthful limit). eapply reachable_inv; eauto. Qed.
 Print Assumptions C36_acks_truthful.
 
+(** Datagram labels are chunk sequence numbers: every data datagram in flight is labelled f..f+k-1 with k > 0 and
+    all of these are chunks of the sender's table; delivering it processes exactly the table's chunks f..f+k-1,
+    in this order (so a datagram can never carry the bytes of one chunk under the number of another -- the
+    correspondence run checks this for every datagram the implementation builds).  A resend may cover a range
+    with already acknowledged chunks inside: [Send] is enabled for every sliced chunk, acked or not. *)
+Theorem C36_datagram_labels_are_chunk_seqs : forall limit maxwin n s c f k,
+  reachable limit maxwin n s -> In (Data c f k) (st_net s) ->
+  0 < k /\ f + k <= ulen (s_chunks (sndr (getc c s))) /\
+  forall i, nth_error (st_net s) i = Some (Data c f k) ->
+    deliver limit maxwin i s = recv_range limit maxwin (N.to_nat k) c f (set_net s (remove_nth i (st_net s))).
+Proof.
+  intros limit maxwin n s c f k H Hin. apply reachable_inv in H.
+  pose proof (core_net _ _ (inv_core _ _ H)) as F. rewrite Forall_forall in F. specialize (F _ Hin). cbn [dgram_ok] in F.
+  destruct F as [F1 F2]. split; [exact F1|]. split; [exact F2|]. intros i E. unfold deliver. rewrite E. reflexivity.
+Qed.
+Print Assumptions C36_datagram_labels_are_chunk_seqs.
+
 (** acquiredMemory never exceeds the limit and always equals the sum over the connections of
     (reserved stream range - bytes already handed to the handler). *)
 Theorem C36_memory_bounded_and_accounted : forall limit maxwin n s,
@@ -132,6 +149,25 @@ Example C36_ex_settles :
   let s' := complete 12 1000 ex_state in
   (map (fun cn => r_deliv (rcvr cn)) (st_conns s'), st_acq s', st_wait s', st_net s') =
   ([[[1;2;3;4;5;6;7;8]; [7;7]]; [[9;9;9;9;9;9]]], 0, [], []).
+Proof. vm_compute. reflexivity. Qed.
+
+(** a stale resend request: one-chunk messages A..E; A, C, D are lost, E overtakes B, both are acknowledged
+    selectively; then the whole range 0..3 is sent again in ONE datagram although chunk 1 (B) inside it is already
+    acked: the receiver drops chunk 1 as a duplicate and hands over A, B, C, D, E exactly once, in order *)
+Definition ex_stale : list step :=
+  [ Submit 0 [10]; Submit 0 [11]; Submit 0 [12]; Submit 0 [13]; Submit 0 [14];
+    Slice 0 [1]; Slice 0 [1]; Slice 0 [1]; Slice 0 [1]; Slice 0 [1];
+    Send 0 0 1; Send 0 1 1; Send 0 2 1; Send 0 3 1; Send 0 4 1;
+    Lose 0; Lose 1; Lose 1;            (* A, C, D *)
+    Deliver 1; Deliver 0;              (* E before B *)
+    AckEmit 0 0 [1; 4]; Deliver 0;     (* the sender learns that B and E arrived *)
+    Send 0 0 4 ].                      (* the stale request [0..3], served as one datagram *)
+Example C36_ex_resend_range_with_acked_chunk_inside :
+  let s := run 100 1000 (init 1) ex_stale in
+  let s' := deliver 100 1000 0 s in
+  (map (fun cn => s_acked (sndr cn)) (st_conns s), st_net s, map (fun cn => r_deliv (rcvr cn)) (st_conns s),
+   map (fun cn => (r_deliv (rcvr cn), r_prefix (rcvr cn))) (st_conns s'), st_acq s') =
+  ([[4; 1]], [Data 0 0 4], [[]], [([[10]; [11]; [12]; [13]; [14]], 5)], 0).
 Proof. vm_compute. reflexivity. Qed.
 
 (** a message larger than the memory limit is never delivered: the hypothesis [small] of [C36_settle] is needed *)
